@@ -5,6 +5,8 @@ import (
 	"strings"
 
 	g "github.com/bobertlo/gmars"
+
+	"verif/ref/mars"
 )
 
 func init() { props["C12"] = runC12 }
@@ -18,6 +20,10 @@ func runC12(c *Ctx) {
 	}
 	c.Cases(n, func(idx int64, r *Rng) {
 		bc := genBattle(r, 3, true)
+		if idx == 0 {
+			// pinned witness of a repaired defect (known_findings.txt): an imp whose offset is >= the core size
+			bc = &BattleCase{M: 10, P: 2, C: 30, R: 10, W: 10, Warriors: []*BWarrior{{Code: []mars.Insn{tImp.Code[0]}, Start: 0, Off: 3}}}
+		}
 		if bc.C > 120 {
 			bc.C = r.Range(1, 120)
 		}
